@@ -24,38 +24,39 @@ type Violation struct {
 }
 
 type Result struct {
-	Property       string         `json:"property"`
-	Tier           string         `json:"tier"`
-	Shard          int            `json:"shard"`
-	Shards         int            `json:"shards"`
-	Seed           int64          `json:"seed"`
-	Evaluations    int64          `json:"evaluations"`
-	Transitions    int64          `json:"transitions"`
-	Nontrivial     int64          `json:"nontrivial"`
-	OutcomeHashes  []uint64       `json:"outcome_hashes"`
-	OutcomesCapped bool           `json:"outcomes_capped"`
-	Samples        []any          `json:"samples"`
-	Violations     []*Violation   `json:"violations"`
-	ViolationCount int64          `json:"violation_count"`
-	Exhaustive     bool           `json:"exhaustive"`
-	Caps           []string       `json:"caps,omitempty"`
-	Bounds         map[string]any `json:"bounds,omitempty"`
-	Assumptions    []string       `json:"assumptions,omitempty"`
-	Rule           string         `json:"rule,omitempty"`
+	Property       string           `json:"property"`
+	Part           string           `json:"part"`
+	Tier           string           `json:"tier"`
+	Shard          int              `json:"shard"`
+	Shards         int              `json:"shards"`
+	Seed           int64            `json:"seed"`
+	Evaluations    int64            `json:"evaluations"`
+	Transitions    int64            `json:"transitions"`
+	Nontrivial     int64            `json:"nontrivial"`
+	OutcomeHashes  []uint64         `json:"outcome_hashes"`
+	OutcomesCapped bool             `json:"outcomes_capped"`
+	Samples        []any            `json:"samples"`
+	Violations     []*Violation     `json:"violations"`
+	ViolationCount int64            `json:"violation_count"`
+	Exhaustive     bool             `json:"exhaustive"`
+	Caps           []string         `json:"caps,omitempty"`
+	Bounds         map[string]any   `json:"bounds,omitempty"`
+	Assumptions    []string         `json:"assumptions,omitempty"`
+	Rule           string           `json:"rule,omitempty"`
 	Counters       map[string]int64 `json:"counters,omitempty"`
-	WallS          float64        `json:"wall_s"`
+	WallS          float64          `json:"wall_s"`
 }
 
 type Run struct {
-	R        Result
-	start    time.Time
-	deadline time.Time
-	outcomes map[uint64]struct{}
-	vio      map[string]*Violation
-	idx      int64
-	maxSamples int
+	R           Result
+	start       time.Time
+	deadline    time.Time
+	outcomes    map[uint64]struct{}
+	vio         map[string]*Violation
+	idx         int64
+	maxSamples  int
 	sampleEvery int64
-	replay   string
+	replay      string
 }
 
 const maxOutcomes = 200000
@@ -74,6 +75,7 @@ func envInt(k string, d int) int {
 func Start(property string) *Run {
 	r := &Run{start: time.Now(), outcomes: map[uint64]struct{}{}, vio: map[string]*Violation{}}
 	r.R.Property = property
+	r.R.Part = os.Getenv("VERIF_PART")
 	r.R.Tier = os.Getenv("VERIF_TIER")
 	if r.R.Tier == "" {
 		r.R.Tier = "quick"
@@ -130,14 +132,14 @@ func (r *Run) Mine(i int64) bool { return int(i%int64(r.R.Shards)) == r.R.Shard 
 // Next hands out a running index and says whether the item belongs to this shard.
 func (r *Run) Next() bool { i := r.idx; r.idx++; return r.Mine(i) }
 
-func (r *Run) Case()               { r.R.Evaluations++ }
-func (r *Run) Cases(n int64)       { r.R.Evaluations += n }
-func (r *Run) Steps(n int64)       { r.R.Transitions += n }
-func (r *Run) Nontrivial()         { r.R.Nontrivial++ }
+func (r *Run) Case()                   { r.R.Evaluations++ }
+func (r *Run) Cases(n int64)           { r.R.Evaluations += n }
+func (r *Run) Steps(n int64)           { r.R.Transitions += n }
+func (r *Run) Nontrivial()             { r.R.Nontrivial++ }
 func (r *Run) Count(k string, n int64) { r.R.Counters[k] += n }
-func (r *Run) Bound(k string, v any) { r.R.Bounds[k] = v }
-func (r *Run) Assume(s string)     { r.R.Assumptions = append(r.R.Assumptions, s) }
-func (r *Run) Rule(s string)       { r.R.Rule = s }
+func (r *Run) Bound(k string, v any)   { r.R.Bounds[k] = v }
+func (r *Run) Assume(s string)         { r.R.Assumptions = append(r.R.Assumptions, s) }
+func (r *Run) Rule(s string)           { r.R.Rule = s }
 
 func Hash(parts ...string) uint64 {
 	h := fnv.New64a()
